@@ -101,6 +101,30 @@ func runC16(c *Ctx) error {
 			hists = append(hists, hr)
 		}
 	}
+	// systematic two-call histories for the grammars with error alternatives: every "poison" input
+	// (the reference shifts 'error' and then gives up, so recovery states are on the stack when Parse
+	// returns) followed by every "probe" input (an error where nothing on a fresh stack can recover)
+	for _, j := range errs {
+		var poison, probe [][]int
+		for _, in := range model.InputPool(inRng, j.CFG, 200, 3) {
+			m := j.LR.Parse(in, model.ParseOpts{FailAt: -1})
+			if m.Accepted || m.StepsExceeded {
+				continue
+			}
+			if strings.Contains(m.Log, "E(") || m.Recoveries > 0 {
+				if len(poison) < 8 {
+					poison = append(poison, in)
+				}
+			} else if len(probe) < 8 {
+				probe = append(probe, in)
+			}
+		}
+		for _, x := range poison {
+			for _, y := range probe {
+				hists = append(hists, &histRef{job: j, items: []HistItem{{Toks: j.Names(x), Fail: -1, Render: true}, {Toks: j.Names(y), Fail: -1, Render: true}}})
+			}
+		}
+	}
 	if err := runHistories(c, jobs, hists); err != nil {
 		return err
 	}
